@@ -210,3 +210,70 @@ theorem reduceAll_range (op : α → α → α) (x : Nat → List α) (n : Nat) 
   simp [reduceAll, List.map_map, Function.comp_def, Nat.add_comm]
 
 end SgVerif.C29
+
+namespace SgVerif.C29
+variable {α : Type}
+
+/-! ### ring allgather -/
+
+/-- ring distance from `s` to `rank` (number of the round in which `rank` receives the block of `s`) -/
+def ringDist (np rank s : Nat) : Nat := if s ≤ rank then rank - s else rank + np - s
+
+theorem ring_src (np rank i : Nat) (hr : rank < np) (hi1 : 1 ≤ i) (hi : i < np) :
+    (rank + np - i) % np = (if i ≤ rank then rank - i else rank + np - i) ∧
+    ((rank + np - i) % np + i) % np = rank ∧ (rank + np - i) % np < np ∧
+    ringDist np rank ((rank + np - i) % np) = i := by
+  by_cases h : i ≤ rank
+  · have e : rank + np - i = (rank - i) + np := by omega
+    have hm : (rank + np - i) % np = rank - i := by
+      rw [e, Nat.add_mod_right, Nat.mod_eq_of_lt (by omega)]
+    refine ⟨by simp [h, hm], ?_, by rw [hm]; omega, ?_⟩
+    · rw [hm, show rank - i + i = rank by omega, Nat.mod_eq_of_lt hr]
+    · rw [hm]; unfold ringDist; split <;> omega
+  · have hm : (rank + np - i) % np = rank + np - i := Nat.mod_eq_of_lt (by omega)
+    refine ⟨by simp [h, hm], ?_, by rw [hm]; omega, ?_⟩
+    · rw [hm, show rank + np - i + i = rank + np by omega, Nat.add_mod_right, Nat.mod_eq_of_lt hr]
+    · rw [hm]; unfold ringDist; split <;> omega
+
+theorem ringRounds_length (bufs : Bufs α) (rank k : Nat) (slots : List (Option (List α))) :
+    (ringRounds bufs rank k slots).length = slots.length := by
+  induction k with
+  | zero => rfl
+  | succ k ih =>
+    simp only [ringRounds]
+    split
+    · split <;> simp [setSlot, ih]
+    · exact ih
+
+theorem ringRounds_get (bufs : Bufs α) (rank k : Nat) (slots : List (Option (List α))) (hr : rank < bufs.length)
+    (hk : k < bufs.length) (hl : slots.length = bufs.length) (s : Nat) (hs : s < bufs.length) :
+    (ringRounds bufs rank k slots)[s]? =
+      if 1 ≤ ringDist bufs.length rank s ∧ ringDist bufs.length rank s ≤ k then some (bufs[s]?) else slots[s]? := by
+  induction k with
+  | zero =>
+    simp only [ringRounds]
+    have : ¬ (1 ≤ ringDist bufs.length rank s ∧ ringDist bufs.length rank s ≤ 0) := by omega
+    rw [if_neg this]
+  | succ k ih =>
+    have ih := ih (by omega)
+    obtain ⟨_, h2, h3, h4⟩ := ring_src bufs.length rank (k + 1) hr (by omega) hk
+    simp only [ringRounds, h2, if_true]
+    rw [List.getElem?_eq_getElem h3]
+    simp only [setSlot, List.getElem?_set, ringRounds_length, hl, h3, if_true]
+    by_cases hsrc : (rank + bufs.length - (k + 1)) % bufs.length = s
+    · subst hsrc
+      simp only [if_true, h4]
+      have : (1 ≤ k + 1 ∧ k + 1 ≤ k + 1) := by omega
+      simp [this, List.getElem?_eq_getElem h3]
+    · simp only [hsrc, if_false, ih]
+      have hne : ringDist bufs.length rank s ≠ k + 1 := by
+        intro hd
+        apply hsrc
+        -- distance k+1 determines the source
+        unfold ringDist at hd h4
+        split at hd <;> split at h4 <;> omega
+      have : (1 ≤ ringDist bufs.length rank s ∧ ringDist bufs.length rank s ≤ k + 1) ↔
+             (1 ≤ ringDist bufs.length rank s ∧ ringDist bufs.length rank s ≤ k) := by omega
+      simp only [this]
+
+end SgVerif.C29
